@@ -9,6 +9,11 @@ GateSkelGen.v   the statement skeleton of Application._handle_request from the m
                 return (logging stripped): a list of strings compared by Proofs/GenEqLoginMap.v with the
                 skeleton Model/Gate.v was written from.  Any change of the order of the checks, of a guard
                 or of what is passed to the handler breaks `Gen_gate_skeleton_eq`.
+AuthEnvC05Gen.v which keys of the WSGI environ every module of radicale/auth, httputils.decode_request and the credential
+                part of _handle_request read (ast: environ.get(K) / environ[K] / K in environ; any other use of `environ` is
+                listed with a leading "!"), and the statements of every get_external_login.  Proofs/C05GenEqAuthEnv.v
+                compares the table with the expected one: remote_user reads exactly REMOTE_USER, http_x_remote_user exactly
+                HTTP_X_REMOTE_USER, no other back-end reads the environ, the gate reads exactly HTTP_AUTHORIZATION.
 """
 import ast
 import copy
@@ -198,10 +203,103 @@ def gen_gate_skel(repo):
             "Definition skeleton : list string := [\n  " + ";\n  ".join(coq_string(l) for l in lines) + "\n].\n")
 
 
+# ---------------------------------------------------------------------------------- which environ keys are read
+def _environ_uses(region_nodes):
+    """(keys, passed_to, other) for every use of a variable named `environ` below the given nodes.
+    keys: constant keys of environ.get(K...) / environ[K] / K in environ; passed_to: callees that receive environ
+    as an argument; other: any other use (non-constant key, iteration, attribute ...), rendered, prefixed '!'."""
+    keys, passed, other = [], [], []
+    for root in region_nodes:
+        parent = {}
+        for n in ast.walk(root):
+            for c in ast.iter_child_nodes(n):
+                parent[c] = n
+        for n in ast.walk(root):
+            if not (isinstance(n, ast.Name) and n.id == "environ"):
+                continue
+            par = parent.get(n)
+            gp = parent.get(par)
+            if isinstance(par, ast.Attribute) and par.attr == "get" and isinstance(gp, ast.Call) and gp.func is par:
+                a = gp.args[0] if gp.args else None
+                if isinstance(a, ast.Constant) and isinstance(a.value, str):
+                    keys.append(a.value)
+                else:
+                    other.append("!" + " ".join(ast.unparse(gp).split()))
+            elif isinstance(par, ast.Subscript) and par.value is n:
+                if isinstance(par.slice, ast.Constant) and isinstance(par.slice.value, str):
+                    keys.append(par.slice.value)
+                else:
+                    other.append("!" + " ".join(ast.unparse(par).split()))
+            elif isinstance(par, ast.Compare) and n in par.comparators and len(par.ops) == 1 \
+                    and isinstance(par.ops[0], (ast.In, ast.NotIn)) and isinstance(par.left, ast.Constant):
+                keys.append(par.left.value)
+            elif isinstance(par, ast.Call) and (n in par.args or any(k.value is n for k in par.keywords)):
+                passed.append(" ".join(ast.unparse(par.func).split()))
+            else:
+                other.append("!" + " ".join(ast.unparse(par if par is not None else n).split()))
+    return sorted(set(keys)), sorted(set(passed)), sorted(set(other))
+
+
+def auth_environ_table(repo):
+    """Rows (label, keys + other uses, pass-throughs, body of get_external_login)."""
+    rows = []
+    adir = os.path.join(repo, "radicale/auth")
+    for name in sorted(os.listdir(adir)):
+        if not name.endswith(".py"):
+            continue
+        with open(os.path.join(adir, name)) as fh:
+            tree = ast.parse(fh.read())
+        keys, passed, other = _environ_uses([tree])
+        body = []
+        for n in ast.walk(tree):
+            if isinstance(n, ast.FunctionDef) and n.name == "get_external_login":
+                for st in n.body:
+                    if isinstance(st, ast.Expr) and isinstance(st.value, ast.Constant):
+                        continue
+                    body += [" ".join(l.split()) for l in ast.unparse(st).split("\n")]
+        rows.append(("radicale/auth/" + name, keys + other, passed, body))
+    with open(os.path.join(repo, "radicale/httputils.py")) as fh:
+        tree = ast.parse(fh.read())
+    fn = py2coq.find_function(tree, "decode_request")
+    keys, passed, other = _environ_uses([fn])
+    rows.append(("radicale/httputils.py:decode_request", keys + other, passed, []))
+    with open(os.path.join(repo, "radicale/app/__init__.py")) as fh:
+        tree = ast.parse(fh.read())
+    fn = py2coq.find_function(tree, "Application._handle_request")
+    a = b = None
+    for i, st in enumerate(fn.body):
+        if isinstance(st, ast.Assign):
+            tg = [ast.unparse(t) for t in st.targets]
+            if a is None and "login" in tg and "password" in tg:
+                a = i
+            if a is not None and any("user" in t.split(", ") or t.strip("()").split(", ")[0] == "user" for t in tg) \
+                    and "self._auth.login" in ast.unparse(st.value):
+                b = i
+                break
+    if a is None or b is None:
+        raise Unsupported("_handle_request: credential part (login = password = '' ... user = self._auth.login) not found")
+    keys, passed, other = _environ_uses(fn.body[a:b + 1])
+    rows.append(("radicale/app/__init__.py:_handle_request:credentials", keys + other, passed, []))
+    return rows
+
+
+def gen_auth_env(repo):
+    rows = auth_environ_table(repo)
+
+    def lst(l):
+        return "[" + "; ".join(coq_string(x) for x in l) + "]"
+    return ("(* GENERATED by /verif/translate/t_c05.py -- do not edit.  Which keys of the WSGI environ the auth back-ends, the\n"
+            "   charset decoding and the credential part of Application._handle_request read: (where, keys read [other uses\n"
+            "   prefixed by !], callees the environ is handed to, statements of get_external_login). *)\n"
+            "From Coq Require Import List String.\nImport ListNotations.\nOpen Scope string_scope.\n\n"
+            "Definition environ_reads : list (string * list string * list string * list string) := [\n  "
+            + ";\n  ".join("(%s, %s, %s, %s)" % (coq_string(w), lst(k), lst(p), lst(b)) for w, k, p, b in rows) + "\n].\n")
+
+
 def generate(repo, outdir):
     errors = {}
     os.makedirs(outdir, exist_ok=True)
-    for mod, fn in (("LoginMapC05Gen", gen_login_map), ("GateSkelGen", gen_gate_skel)):
+    for mod, fn in (("LoginMapC05Gen", gen_login_map), ("GateSkelGen", gen_gate_skel), ("AuthEnvC05Gen", gen_auth_env)):
         try:
             text = fn(repo)
         except (Unsupported, SyntaxError, OSError) as e:
